@@ -49,7 +49,9 @@ def base_traffic(rng, tree, keys, cr, nonce):
     # structurally invalid / rule-violating blocks and transactions
     for _ in range(3):
         klass = rng.choice([c for c in ledger.classes_for("all") if c not in ledger.EXPECT_VALID
-                            and c not in ledger.UNDETERMINED])
+                            and c not in ledger.UNDETERMINED
+                            # invalid only relative to the clock the candidate was built for, not this node's clock
+                            and c != "ts_future_31"])
         try:
             c = ledger.make_candidate(cr, klass, rng.choice(blocks[-5:]).hash(), [])
         except Exception:
